@@ -78,6 +78,11 @@ def skeletons(dom):
         "complex_literal": conditional(lt(abs(f), 3 + 4j), f, g),
         "complex_literal_max": max_value(real(f), 1 + 1j),
         "sum_with_complex": conditional(gt(abs(f) + g, 0), f, g),
+        # a possibly complex operand that itself contains a conditional / min / max (their results are not "bool")
+        "complex_cond_operand": conditional(lt(conditional(gt(real(f), 0), f, g), 0), f, g),
+        "complex_times_max": conditional(lt(f * max_value(real(f), real(g)), 0), f, g),
+        "max_of_complex_cond": max_value(conditional(gt(abs(f), 1), f, g), 1.0),
+        "min_of_complex_times_min": min_value(g * min_value(real(f), 1.0), 2.0),
         # functions that leave the reals on part of the real axis
         "ln_of_real": conditional(lt(ln(real(f)), 0), f, g),
         # (ln(abs(f)) is real-valued, but showing it needs ln's range on [0, inf): uninterpreted here, left out)
